@@ -62,6 +62,43 @@ def run_loud(P, rep, rule="R-LOUD"):
             r_wprop.is_adapter = old
 
 
+def run_find_loud(P, rep, rule="R-LOUD"):
+    """model::find is try_find plus an error: every `Ok(..)` it returns carries the value try_find produced.  An `Ok` built from
+    anything else (a nil for "as in Ruby", a default) makes the failing lookup succeed where the optional one says None — an
+    output tag prints nothing instead of failing, and get / try_get disagree."""
+    from origins import backward_slice
+    fn = P.fn_by_key("liquid_core::model::find::find")
+    if fn is None:
+        rep.anchor_missing(rule, "liquid_core::model::find::find")
+        return
+    tf = [t for bi, t in P.calls(fn) if t.get("f") and t["f"]["id"].endswith("find::try_find")]
+    from mirutil import copy_root
+    # the call on the whole path (the others, on prefixes, only build the error text)
+    from mirutil import alias_closure
+    whole = alias_closure(fn, [2])
+    tf = [t for t in tf if len(t["args"]) > 1 and op_local(t["args"][1]) and (op_local(t["args"][1])[0] in whole or copy_root(fn, op_local(t["args"][1])[0]) in whole)]
+    if len(tf) != 1:
+        rep.viol(rule, "find shape", P.where(fn), "expected one try_find(value, path) call on the whole path in find, found %d: re-derive" % len(tf))
+        return
+    src = tf[0]["d"][0]
+    n = 0
+    for bi, b in enumerate(fn.blocks):
+        for st in b["s"]:
+            if st[0] == "a" and st[2]["k"] == "agg" and st[2].get("vname") == "Ok" and "Result" in P.local_ty(fn, st[1][0]):
+                n += 1
+                ops = st[2].get("ops") or []
+                ol = op_local(ops[0]) if ops else None
+                locs = backward_slice(fn, ol[0])[0] if ol else set()
+                if src not in locs:
+                    rep.viol(rule, "find Ok#%d" % n, P.where(fn, st[3] if len(st) > 3 else None),
+                             "find returns an `Ok` whose value does not come from try_find: a path that does not resolve yields a value (e.g. nil) instead of an error")
+                    return
+    if not n:
+        rep.viol(rule, "find shape", P.where(fn), "no Ok(..) construction found in find: re-derive")
+    else:
+        rep.ok(rule, "find", P.where(fn), "every Ok(..) of find (%d) carries try_find's value; everything else is an Err" % n)
+
+
 def run_fold_order(P, rep, rule="R-FOLD"):
     """FilterChain::evaluate folds the filters left to right: iterates self.filters forward and feeds each result to the next."""
     fn = P.fn_by_key("<liquid_core::parser::filter_chain::FilterChain>::evaluate")
